@@ -258,27 +258,27 @@ def codec_family(opts, colname=None):
     return str(c).upper()
 
 
-def col_optional(opts, col, is_object_like):
-    """Is the column written OPTIONAL (definition levels present)?"""
+def col_optional(opts, col, is_object_like, cat_missing=False):
+    """Is the column written OPTIONAL (definition levels present)?  Under 'infer': object columns, and categorical
+    columns that hold a missing cell (there is no sentinel among dictionary indices)."""
     hn = opts.get("has_nulls", True)
     if hn is True:
         return True
     if hn is False:
         return False
     if hn == "infer":
-        return is_object_like
+        return is_object_like or cat_missing
     return col in hn
 
 
 def required_with_missing(fr, opts, kinds=("category",)):
-    """Columns of the given kinds that hold missing cells but are written REQUIRED
-    (has_nulls False / 'infer' for non-object / not listed): the library does not
-    reject this combination and writes a -1 dictionary index (see C18); checks
-    about reading stay away from such files."""
+    """Columns of the given kinds that hold missing cells but are declared REQUIRED
+    (has_nulls False / not listed): the library refuses to write them (C18; C02 checks that
+    no file with a -1 dictionary index is ever produced); checks about reading have nothing to read."""
     out = []
     n = fr["n"]
     for c in fr["cols"] + ([fr["index"]] if fr.get("index") else []):
         if c["kind"] in kinds and has_missing(c, n):
-            if not col_optional(opts, c["name"], False):
+            if not col_optional(opts, c["name"], False, cat_missing=c["kind"] == "category"):
                 out.append(c["name"])
     return out
